@@ -13,6 +13,7 @@ type Outcome struct {
 	Cat  string // error category (which exported sentinel it Is)
 	Msg  string
 	Val  any
+	Err  error // the error object itself: it must keep saying the same thing later
 }
 
 var sentinels = []struct {
@@ -46,7 +47,15 @@ func categorize(err error) string {
 }
 
 func errOutcome(err error) Outcome {
-	return Outcome{Kind: 'e', Cat: categorize(err), Msg: err.Error()}
+	return Outcome{Kind: 'e', Cat: categorize(err), Msg: err.Error(), Err: err}
+}
+
+// KeyNow re-reads the value or error object held by the caller.
+func (o Outcome) KeyNow() string {
+	if o.Kind == 'e' && o.Err != nil {
+		return "e:" + categorize(o.Err) + ":" + o.Err.Error()
+	}
+	return o.Key()
 }
 
 // Key is the exact serialisation used for strict comparison and for the
